@@ -195,12 +195,12 @@ def run(res, replay=None):
     res.cov["trusted_base"] = e2v.TRUSTED_COMMON + [
         "rbtree.c (rebalancing, next/prev/first/last) is represented by its in-order node sequence; exercised by correspondence only",
         "C integer wrap-around is not modelled: positions < 2^63, counts < 2^32 (generator respects this)",
-        "bulk get/set are modelled and proved for byte-aligned (start - bitmap.start) and bitmap.start < 8 (the only form libext2fs uses; the bit-array back end ignores the low 3 bits)",
+        "bulk get/set are modelled and proved for every start and length (the bit-array back end was repaired to honour ranges off byte boundaries)",
         "bit-array tests such as byte != 0xff are modelled through the bits they inspect",
     ]
-    res.assumptions = ["resize/fudge_end, the legacy 32-bit bitmaps (gen_bitmap.c) and allocation failure are not modelled: partial",
+    res.assumptions = ["the legacy 32-bit bitmaps (gen_bitmap.c), ext2fs_fudge_generic_bmap_end and allocation failure are not modelled: partial",
                        "array alignment in the C run is whatever malloc returns (al = 0); the theorem covers every alignment"]
-    res.cov["partial"] = ["ext2fs_resize_generic_bmap / fudge_end not modelled", "legacy 32-bit bitmap (gen_bitmap.c) covered by correspondence of the 64-bit API only"]
+    res.cov["partial"] = ["ext2fs_resize_generic_bmap is modelled (BmResize.v: the common range is kept, the rest reads clear); fudge_end and allocation failure are not", "legacy 32-bit bitmap (gen_bitmap.c) covered by correspondence of the 64-bit API only"]
     mexe = e2v.build_driver("bitmap", ["theories/Bitmap/RBModel.vo", "theories/Bitmap/BAModel.vo", "theories/Bitmap/BmResize.vo"], ["bitmap_model"])
 
     if replay:
